@@ -70,4 +70,133 @@ example : (runSched demoStep 5 [0, 1, 1, 0, 1, 0, 0, 1] [.inl (2, 0), .inl (3, 1
 example : (runSched demoStep 5 [1, 1, 1, 1, 0, 0, 0] [.inl (2, 0), .inl (3, 10)])
     = [.inr 8, .inr 21] := by decide
 
+
+/-! ## [review] additions
+
+[review] Reading guide.  In `C20_noninterference` the shared store `sh` is a *parameter* of `runSched` (nothing can
+write it) and a step of call `j` is `List.modify j`, so "call `i` is not affected by the others" is built into the
+shape of the model: the theorem is the bookkeeping fact that `modify j` does not touch index `i ≠ j`.  It says
+nothing about `mindsdb_sql` until the run-time checks establish that the code has that shape; every piece of
+evidence about the real library for C20 is dynamic (see the header and `ASSUME`).  `C20_lazy_global` is a
+single-threaded idempotence fact about a *separate* model (`lazyGet`, not connected to `runSched`, and not tied to
+`identifier.py:get_reserved_words` by any correspondence stream).
+
+The additions below connect the two: a system in which every step first runs the lazy getter — which WRITES the
+shared set, as `get_reserved_words()` does (`reserved = RESERVED_KEYWORDS; reserved.add(word)`) — and then reads the
+set only through membership.  From every partially filled state `g0 ⊆ g ⊆ g0 ∪ w` (e.g. another thread is in the
+middle of its fill loop) and under every schedule, call `i` ends exactly where it ends when run alone against the
+completely filled set.  The hypothesis that makes a written shared store harmless is explicit here: the write is
+monotone and idempotent and readers only observe the store *after* their own getter call, and only as a set.
+This is realistic for `RESERVED_KEYWORDS`; it is NOT established for SQLAlchemy's memoised attributes / compiled
+caches (the class-state digest of `tools/props/c20.py` skips `memoized_property` & co.). -/
+
+-- [review]
+/-- the set returned from ANY state `g` of the global is `g ∪ w` (not only from states left by a complete earlier call, as in `C20_lazy_global`) -/
+theorem C20_review_lazy_global_any_state (w g : List Nat) (x : Nat) :
+    x ∈ (lazyGet w g).2 ↔ (x ∈ g ∨ x ∈ w) := by
+  simp only [lazyGet, List.mem_append, List.mem_filter, Bool.not_eq_true', List.contains_eq_mem,
+    decide_eq_false_iff_not]
+  constructor
+  · rintro (h | ⟨h, _⟩)
+    · exact Or.inl h
+    · exact Or.inr h
+  · rintro (h | h)
+    · exact Or.inl h
+    · by_cases hg : x ∈ g
+      · exact Or.inl hg
+      · exact Or.inr ⟨h, hg⟩
+
+-- [review]
+theorem C20_review_lazy_global_interleaved (w g0 g : List Nat)
+    (hlo : ∀ x, x ∈ g0 → x ∈ g) (hhi : ∀ x, x ∈ g → x ∈ g0 ∨ x ∈ w) (x : Nat) :
+    x ∈ (lazyGet w g).2 ↔ x ∈ (lazyGet w g0).2 := by
+  rw [C20_review_lazy_global_any_state, C20_review_lazy_global_any_state]
+  constructor
+  · rintro (h | h)
+    · exact hhi x h
+    · exact Or.inr h
+  · rintro (h | h)
+    · exact Or.inl (hlo x h)
+    · exact Or.inr h
+
+-- [review]
+/-- one step of call `i` in a system whose shared store IS written -/
+def stepAtG {σ ρ : Type} (w : List Nat) (f : (Nat → Bool) → σ → Cell σ ρ) (i : Nat)
+    (p : List Nat × List (Cell σ ρ)) : List Nat × List (Cell σ ρ) :=
+  let g' := (lazyGet w p.1).1
+  (g', stepAt f (fun x => g'.contains x) i p.2)
+
+-- [review]
+def runSchedG {σ ρ : Type} (w : List Nat) (f : (Nat → Bool) → σ → Cell σ ρ) (sched : List Nat)
+    (p : List Nat × List (Cell σ ρ)) : List Nat × List (Cell σ ρ) :=
+  sched.foldl (fun p i => stepAtG w f i p) p
+
+-- [review]
+theorem runSchedG_eq {σ ρ : Type} (w g0 : List Nat) (f : (Nat → Bool) → σ → Cell σ ρ) :
+    ∀ (sched : List Nat) (g : List Nat) (st : List (Cell σ ρ)),
+      (∀ x, (x ∈ g ∨ x ∈ w) ↔ (x ∈ g0 ∨ x ∈ w)) →
+      (runSchedG w f sched (g, st)).2 = runSched f (fun x => (g0 ++ w).contains x) sched st := by
+  intro sched
+  induction sched with
+  | nil => intro g st _; rfl
+  | cons j js ih =>
+    intro g st hinv
+    have hmem : ∀ x, x ∈ (lazyGet w g).1 ↔ (x ∈ g ∨ x ∈ w) := C20_review_lazy_global_any_state w g
+    have hpred : (fun x => (lazyGet w g).1.contains x) = (fun x => (g0 ++ w).contains x) := by
+      funext x
+      have h1 := hmem x
+      have h2 := hinv x
+      by_cases hx : x ∈ (lazyGet w g).1
+      · have : x ∈ g0 ++ w := by simpa using h2.mp (h1.mp hx)
+        simp [List.contains_eq_mem, hx, this]
+      · have : ¬ x ∈ g0 ++ w := by
+          intro hc; exact hx (h1.mpr (h2.mpr (by simpa using hc)))
+        simp [List.contains_eq_mem, hx, this]
+    have hstep : runSchedG w f (j :: js) (g, st)
+        = runSchedG w f js ((lazyGet w g).1, stepAt f (fun x => (lazyGet w g).1.contains x) j st) := rfl
+    rw [hstep, hpred]
+    have hrun : runSched f (fun x => (g0 ++ w).contains x) (j :: js) st
+        = runSched f (fun x => (g0 ++ w).contains x) js (stepAt f (fun x => (g0 ++ w).contains x) j st) := rfl
+    rw [hrun]
+    apply ih
+    intro x
+    rw [hmem x]
+    constructor
+    · rintro (h | h)
+      · exact (hinv x).mp h
+      · exact Or.inr h
+    · intro h
+      exact Or.inl ((hinv x).mpr h)
+
+-- [review]
+theorem C20_review_noninterference_lazy_write {σ ρ : Type} (w g0 g : List Nat)
+    (f : (Nat → Bool) → σ → Cell σ ρ) (i : Nat) (sched : List Nat) (st : List (Cell σ ρ))
+    (hlo : ∀ x, x ∈ g0 → x ∈ g) (hhi : ∀ x, x ∈ g → x ∈ g0 ∨ x ∈ w) :
+    (runSchedG w f sched (g, st)).2[i]? =
+      (st[i]?).map (iter (stepCell f (fun x => (g0 ++ w).contains x)) (sched.count i)) := by
+  rw [runSchedG_eq w g0 f sched g st, C20_noninterference]
+  intro x
+  constructor
+  · rintro (h | h)
+    · exact hhi x h
+    · exact Or.inr h
+  · rintro (h | h)
+    · exact Or.inl (hlo x h)
+    · exact Or.inr h
+
+-- [review]
+def demoStepG (memb : Nat → Bool) (s : Nat × Nat) : Cell (Nat × Nat) Nat :=
+  if s.1 = 0 then .inr s.2 else .inl (s.1 - 1, s.2 + (if memb s.1 then 100 else 1))
+
+-- [review]
+example : runSchedG [1, 2, 3] demoStepG [0, 1, 1, 0, 1, 0, 0, 1] ([7], [.inl (2, 0), .inl (3, 10)])
+    = ([7, 1, 2, 3], [.inr 200, .inr 310]) := by decide
+-- [review]
+example : runSchedG [1, 2, 3] demoStepG [1, 1, 1, 1, 0, 0, 0] ([7, 2], [.inl (2, 0), .inl (3, 10)])
+    = ([7, 2, 1, 3], [.inr 200, .inr 310]) := by decide
+-- a reader that looks at the global WITHOUT running the getter first would see the difference
+-- [review]
+example : (demoStepG (fun x => [7].contains x) (2, 0), demoStepG (fun x => [7, 1, 2, 3].contains x) (2, 0))
+    = (.inl (1, 1), .inl (1, 100)) := by decide
+
 end MindsVerif.Props.C20
